@@ -177,11 +177,19 @@ def inject_loopback(case):
         sender.bind((host, 0))
         src = sender.getsockname()
 
+        want_n = sum(1 for item in case["items"] if classify(datagram_of(item, case["items"]), case["community"])[0] == "deliver")
+
         async def play():
             for item in case["items"]:
                 d = datagram_of(item, case["items"])
                 if d:
                     sender.sendto(d, (host, port))
+                await asyncio.sleep(0.01)
+            # real time is not a correctness signal: wait (up to 3 s) until everything expected has arrived, then a
+            # little longer for anything that should NOT arrive
+            for _ in range(300):
+                if len(got) >= want_n:
+                    break
                 await asyncio.sleep(0.01)
             await asyncio.sleep(0.05)
 
